@@ -29,7 +29,7 @@ const (
 )
 
 var c03reviewedK1 = map[string]c03argued{
-	c03edi + ".rawSegToNode: panic when !_.valid <- " + c03edi + ".Read":                                                                              {1, "Read calls rawSegToNode only after getUnprocessedRawSeg returned a nil error, which happens only with unprocessedRawSeg.valid == true; resetRawSeg runs after rawSegToNode"},
+	c03edi + ".rawSegToNode: panic when !p0.unprocessedRawSeg.valid <- " + c03edi + ".Read":                                                           {1, "Read calls rawSegToNode only after getUnprocessedRawSeg returned a nil error, which happens only with unprocessedRawSeg.valid == true; resetRawSeg runs after rawSegToNode"},
 	c03edi + ".segDone: panic when p0.target != nil <- " + c03edi + ".segNext":                                                                        {1, c03argTarget},
 	c03edi + ".segDone: panic when (*edi.ediReader).stackTop(p0,nil).segNode == nil <- " + c03edi + ".Read":                                           {1, c03argNode},
 	c03edi + ".segDone: panic when (*edi.ediReader).stackTop(p0,nil).segNode == nil <- " + c03edi + ".segNext":                                        {1, c03argNode},
